@@ -84,6 +84,19 @@ fn run<const N: usize>(s: &Scn) -> Result<(), String> {
     let mut leaked_ok = false;
     let new_id = 5000u32;
     let fam = s.g("fam");
+    // out-of-range index: Vec panics and so must the real code, leaving the vector unchanged
+    let oob = (fam == 1 && s.g("push") != 1 && s.u("index") > len) || (fam == 2 && s.g("op") != 2 && s.u("index") >= len);
+    if oob {
+        let before = ids::<N>(&v);
+        let index = s.u("index");
+        let r = catch_unwind(AssertUnwindSafe(|| {
+            if fam == 1 { v.insert(index, AnyValueWrapper::new(El::<N>::new(new_id))) }
+            else if s.g("op") == 0 { drop(v.remove(index)) } else { drop(v.swap_remove(index)) }
+        }));
+        if r.is_ok() { return Err(format!("index {} is out of range for len {} but the call returned (Vec panics)", index, len)); }
+        if maskv::<N>(&ids::<N>(&v)) != maskv::<N>(&before) { return Err(format!("the out-of-range call changed the vector: {:?} -> {:?}", before, ids::<N>(&v))); }
+        return Ok(());
+    }
     let r = catch_unwind(AssertUnwindSafe(|| -> Result<(), String> {
         match fam {
             1 => { // insert / push; src 0 raw 1 wrapper 2 typed
@@ -212,8 +225,8 @@ fn search(base: &Scn) -> Option<(Scn, String)> {
     for len in 0..=5usize { for cap in [len, len + 1, len + 3] {
         let mut s = base.clone(); s.m.insert("len".into(), len as i64); s.m.insert("cap".into(), cap as i64);
         match fam {
-            1 => for index in 0..=len { let mut t = s.clone(); t.m.insert("index".into(), index as i64); if try_one(t) { return out; } },
-            2 => for index in 0..len { let mut t = s.clone(); t.m.insert("index".into(), index as i64); if try_one(t) { return out; } },
+            1 => for index in 0..=len + 1 { let mut t = s.clone(); t.m.insert("index".into(), index as i64); if try_one(t) { return out; } },
+            2 => for index in 0..=len { if index == len && (len == 0 || s.g("op") == 2) { continue; } let mut t = s.clone(); t.m.insert("index".into(), index as i64); if try_one(t) { return out; } },
             3 | 4 => for start in 0..=len { for end in start..=len { for f in 0..=(end - start) { for b in 0..=(end - start - f) {
                     for k in if fam == 4 { 0..=3usize } else { 0..=0usize } {
                         let mut t = s.clone();
